@@ -120,7 +120,9 @@ func NewDriver(
 	host string,
 	opts ...util.Option,
 ) (*Driver, error) {
-	opts = append(opts, withNetconfConnection(true))
+	// appended to a copy: the caller's list may be a part of a longer one, whose next element an
+	// append in place would overwrite
+	opts = append(append([]util.Option{}, opts...), withNetconfConnection(true))
 
 	// create the generic driver just to yoink the transport and channel out of it, by doing this
 	// all the "normal" options get applied, then we just take the parts we care about. we very much
